@@ -556,3 +556,34 @@ Definition legacy_seq (f : list byte) (thr ps : Z)
       Some ((if mp_ then map (fun p => (fst p, lchunk_bytes (snd p))) parts
              else [(0, lchunk_bytes (legacy_put_body f))]), pm, ok, s3_object s' 0)
   end.
+
+(** The same with the part tasks run in a given order (a list of task
+    indices, as recorded from a scheduled run). *)
+Definition upload_ord (mn mx mp thr cfg : Z) (alg : bool) (src : source) (order : list nat)
+  : option (list (Z * list byte) * Z * list Z * list part_meta * bool * option bytes) :=
+  match upload_plan_src mn mx mp thr cfg src with
+  | None => None
+  | Some (pl, c, reads) =>
+      match run_upload mn alg s3_empty 0 pl (plan_scripts pl) order with
+      | None => None
+      | Some (s', ok, parts) => Some (plan_bodies pl, c, reads, parts, ok, s3_object s' 0)
+      end
+  end.
+
+Definition copy_ord (mn mx mp thr cfg : Z) (alg : bool) (o : bytes) (order : list nat)
+  : option (list part_meta * bool * option bytes) :=
+  match run_copy mn mx mp thr cfg alg (mkS3 [(1, o)] [] 0 0 []) 1 0 order with
+  | None => None
+  | Some (s', ok, parts) => Some (parts, ok, s3_object s' 0)
+  end.
+
+Definition legacy_ord (f : list byte) (thr ps : Z) (order : list nat)
+  : option (list part_meta * bool * option bytes) :=
+  let parts := legacy_parts f ps in
+  let sizes := if is_multipart (Z.of_nat (length f)) thr
+               then map (fun p => [Z.max (l_size (snd p)) 0 + 1; 1]) parts
+               else [[Z.of_nat (length f) + 1; 1]] in
+  match run_legacy_upload ps s3_empty 0 f thr ps sizes order with
+  | None => None
+  | Some (s', ok, parts) => Some (parts, ok, s3_object s' 0)
+  end.
